@@ -110,7 +110,7 @@ func (d *mapI32KeyDecoder) FromDom(vp unsafe.Pointer, node Node, ctx *context) e
 	var gerr error
 	for i := 0; i < obj.Len(); i++ {
 		keyn := NewNode(next)
-		k, ok := keyn.ParseI64(ctx)
+		k, ok := keyn.parseKeyI64(ctx)
 		if !ok || k > math.MaxInt32 || k < math.MinInt32 {
 			if gerr == nil {
 				gerr = error_mismatch(keyn, ctx, d.mapType.Pack())
@@ -163,7 +163,7 @@ func (d *mapI64KeyDecoder) FromDom(vp unsafe.Pointer, node Node, ctx *context) e
 	next := obj.Children()
 	for i := 0; i < obj.Len(); i++ {
 		keyn := NewNode(next)
-		key, ok := keyn.ParseI64(ctx)
+		key, ok := keyn.parseKeyI64(ctx)
 
 		if !ok {
 			if gerr == nil {
@@ -217,7 +217,7 @@ func (d *mapU32KeyDecoder) FromDom(vp unsafe.Pointer, node Node, ctx *context) e
 	next := obj.Children()
 	for i := 0; i < obj.Len(); i++ {
 		keyn := NewNode(next)
-		k, ok := keyn.ParseU64(ctx)
+		k, ok := keyn.parseKeyU64(ctx)
 		if !ok || k > math.MaxUint32 {
 			if gerr == nil {
 				gerr = error_mismatch(keyn, ctx, d.mapType.Pack())
@@ -267,7 +267,7 @@ func (d *mapU64KeyDecoder) FromDom(vp unsafe.Pointer, node Node, ctx *context) e
 	next := obj.Children()
 	for i := 0; i < obj.Len(); i++ {
 		keyn := NewNode(next)
-		key, ok := keyn.ParseU64(ctx)
+		key, ok := keyn.parseKeyU64(ctx)
 		if !ok {
 			if gerr == nil {
 				gerr = error_mismatch(keyn, ctx, d.mapType.Pack())
